@@ -53,7 +53,7 @@ BuildAllowed(e) ==
                 /\ Wants(e, "fp") => (e.fp = Fingerprint(Pcf(g.d)) /\ e.frozen_fp = e.fp)
                 \* (a record that unconditionally contains itself can be built and frozen, but it is not a valid
                 \*  schema document: the parser rejects it, so there is nothing to parse back)
-                /\ (Wants(e, "json") /\ ~AnyUncond(g.d)) =>
+                /\ (Wants(e, "json") /\ ~AnyUncond(g.d) /\ ~UncondCycle(e.nodes)) =>
                                        /\ e.reparse = "ok"
                                        /\ LET g2 == GraphDesc(e.json_nodes) IN g2.st = "ok" /\ g2.d = g.d
                                        /\ e.json_fp = e.frozen_fp
